@@ -12,7 +12,7 @@ from typing import Any
 
 from ..absint import App, ExcVal, Hooks, Interp, Obj, Raised, Sym, vrepr
 from ..cfg import CFG, calls_in, node_exprs
-from ..model import AnalysisError, Repo, norm
+from ..model import AnalysisError, Repo, dotted, norm
 from ..report import Check
 
 LEVEL = 'proof'
@@ -141,6 +141,33 @@ def run(repo: Repo, chk: Check) -> None:
             chk.ob('R-PATH', fi.qualname, ok, f'advance on every path through the delegated call to the {name}',
                    f'{fi.module.relpath}:{d.line}', {'path_without_advance': g.describe_path(p_after) if p_after and not before else None},
                    what=f'a path through the node request reaches the {name} without advancing the rotation index')
+
+    # ---- 2b every request of a client reaches the rotation: the verb helpers dispatch on the object (`self.request`, so that the pool's override is
+    #         taken), and nothing in the RPC layer talks to a node's URI behind the back of `request`
+    base_q = 'pytezos.rpc.node.RpcNode'
+    nverbs = 0
+    for vname in ('get', 'post', 'put', 'delete'):
+        vm = repo.find_method(base_q, vname)
+        if vm is None:
+            continue
+        nverbs += 1
+        sends = [c for c in ast.walk(vm.node) if isinstance(c, ast.Call) and isinstance(c.func, ast.Attribute) and c.func.attr == 'request']
+        dynamic = bool(sends) and all(isinstance(c.func.value, ast.Name) and c.func.value.id == 'self' for c in sends)
+        chk.ob('R-FLOW', vm.qualname, dynamic, f'{vname.upper()} is sent through self.request (the override of a pool is taken)', vm.loc,
+               {'calls': [norm(c.func) for c in sends]},
+               what=f'RpcNode.{vname} sends through {[norm(c.func) for c in sends]}: on a multi-node client the request goes to the first URI and the rotation is not advanced')
+    chk.minimum('verb helpers of RpcNode', nverbs, 4)
+    direct = []
+    for fi2 in repo.iter_functions('pytezos.rpc.'):
+        if fi2.qualname == f'{base_q}.request':
+            continue
+        for c in ast.walk(fi2.node):
+            if isinstance(c, ast.Call):
+                d = dotted(c.func)
+                if d and repo.resolve_name(fi2.module, d).startswith('requests.') and repo.resolve_name(fi2.module, d).rsplit('.', 1)[-1] in ('get', 'post', 'put', 'delete', 'request', 'head', 'patch', 'Session'):
+                    direct.append(f'{fi2.module.relpath}:{c.lineno} {fi2.qualname}')
+    chk.ob('R-FLOW', 'pytezos.rpc', not direct, 'the RPC layer makes HTTP requests only in RpcNode.request', None, {'direct_http_calls': direct},
+           what=f'{direct[:2]} call the HTTP library directly: such a request of a multi-node client goes to a fixed URI and does not take part in the rotation')
 
     # ---- 3 the constructor establishes the invariant the rotation relies on: one node per configured URI, in order, index 0 ------------------
     chk.set_clause('C28.3')
